@@ -308,7 +308,18 @@ def class_c(rng, prog, toks):
     if rule == 'out-of-scope-name':
         # a parameter or routine-local name used after its routine has ended
         names = out_of_scope_names(prog)
-        if not names:
+        if not names or rng.random() < 0.25:
+            if rng.random() < 0.5:
+                # a name first assigned inside a block within the routine
+                blk = rng.choice([
+                    'set "Candle" begin assign zz_q 5 stage end',
+                    'set "Candle" begin repeat with zz_q from 1 to 2 stage end',
+                    'repeat 2 begin assign zz_q 5 end',
+                    'if {{ 1 }} assign zz_q 5',
+                    'repeat all as zz_q print zz_q'])
+                return base + ' define zz_f begin ' + blk + ' end ' + rng.choice(
+                    ['print zz_q', 'hue zz_q', 'assign zz_w {{ zz_q + 1 }}',
+                     'repeat zz_q print 1']), rule
             return base + ' define zz_f with zz_p begin assign zz_q zz_p end ' \
                 + rng.choice(['print zz_p', 'hue zz_q', 'repeat zz_p print 1',
                               'set "Strip" zone zz_p']), rule
@@ -351,13 +362,32 @@ def class_c(rng, prog, toks):
             'repeat in {} as zz_l print 1', 'printf "{{}}" {}',
             'repeat while {{ {} < 1 }} break', 'wait {}'])
         stmt = form.format(UNDEF)
+        if rng.random() < 0.2:
+            # a word that names one of the lexer's internal token kinds is
+            # just another undefined name -- alone at command level, before
+            # the rest of the script or before something else that is wrong
+            w = rng.choice(INTERNAL)
+            return rng.choice([w + ' ' + base, base + ' ' + w,
+                               base + ' ' + w + ' break',
+                               base + ' ' + w + ' time at 25:99',
+                               'hue 5 ' + w + ' ' + base + ' end',
+                               form.format(w) + ' ' + base]), rule
         if rng.random() < 0.5:
             return base + ' ' + stmt, rule
         return stmt + ' ' + base, rule
     if rule == 'nested-routine':
         inner = rng.choice(['define zz_in on all', 'define zz_in begin print 1 end',
                             'define zz_in with a print a'])
-        return base + ' define zz_out begin print 1 ' + inner + ' end', rule
+        # ... directly in the body, or inside a block that the body contains
+        # (a matrix block, a loop, a branch)
+        where = rng.choice(['{}', '{}', 'set "Candle" begin {} end',
+                            'set "Candle" begin stage {} end',
+                            'set "Candle" begin repeat 2 begin {} end end',
+                            'repeat 2 begin {} end', 'if {{ 1 }} {}',
+                            'if {{ 0 }} print 1 else begin {} end',
+                            'repeat all as zz_l begin {} end'])
+        return base + ' define zz_out begin print 1 ' + where.format(inner) \
+            + ' end', rule
     if rule == 'missing-end':
         idx = [i for i, t in enumerate(toks) if t == 'end']
         if not idx:
@@ -478,6 +508,41 @@ def class_e(rng):
     return (head + unit * k + tail)[:12000]
 
 
+SPELLINGS = ['0', '1', '2', '3', '5', '7', '10', '12', '2.5', '100', '1:30',
+             '12:00']
+
+
+def class_h(rng):
+    """one spelling used as a quoted string and as a number (or time pattern)
+    in the same text, in either order: a valid script that must be accepted
+    and must run without a fault"""
+    v = rng.choice(SPELLINGS)
+    if ':' in v:
+        parts = ['print "{}"'.format(v), 'time at {} on all'.format(v),
+                 'define zz_s "{}" print zz_s'.format(v),
+                 'define zz_p {} time at zz_p off all'.format(v)]
+        rng.shuffle(parts)
+        return ' '.join(parts[:rng.randint(2, 4)]) + ' time 0'
+    as_text = ['print "@"', 'define zz_s "@" println zz_s',
+               'assign zz_t "@" print zz_t', 'printf "{} @" "@"',
+               'define zz_show with zz_x begin print zz_x end zz_show "@"',
+               'on "@"', 'set "@" and "Top"']
+    as_number = ['assign zz_n { @ + 1 } print zz_n', 'hue @ set "Top"',
+                 'define zz_m @ brightness zz_m', 'if { @ > 0 } print 1',
+                 'assign zz_a @ assign zz_b { zz_a * 2 } print zz_b',
+                 'time @ on all']
+    if '.' not in v:
+        as_number += ['repeat @ print 1', 'set "Strip" zone @',
+                      'repeat with zz_i from 0 to @ print zz_i',
+                      'set "Candle" row @']
+    parts = [rng.choice(as_text), rng.choice(as_number)]
+    if rng.random() < 0.5:
+        parts.append(rng.choice([t for t in as_text + as_number
+                                 if t not in parts]))
+    rng.shuffle(parts)
+    return ' '.join(parts).replace('@', v) + ' time 0'
+
+
 def class_d(rng):
     n = rng.randint(1, 60)
     data = bytes(rng.randrange(256) for _ in range(n))
@@ -511,11 +576,17 @@ def run_shard(ctx):
             ctx.count('rule:' + rule)
             judge(ctx, text, 'C', must_reject=rule)
         elif k == 7:
-            if (i // (8 * ctx.nshards)) % 4 == 3:
+            if (i // (8 * ctx.nshards)) % 5 == 4:
+                text = class_h(rng)
+                if judge(ctx, text, 'H') == 'rejected':
+                    ctx.violation('rejected:valid-text:one-spelling-two-kinds',
+                                  'a valid script is rejected | ' + text[:300],
+                                  {'class': 'H', 'text': text})
+            elif (i // (8 * ctx.nshards)) % 5 == 3:
                 judge(ctx, class_e(rng), 'E')
-            elif (i // (8 * ctx.nshards)) % 4 == 2:
+            elif (i // (8 * ctx.nshards)) % 5 == 2:
                 judge(ctx, class_f(rng), 'F')
-            elif (i // (8 * ctx.nshards)) % 4 == 1:
+            elif (i // (8 * ctx.nshards)) % 5 == 1:
                 judge(ctx, class_g(rng), 'G')
             else:
                 judge(ctx, class_d(rng), 'D')
